@@ -6,7 +6,7 @@ import translate_resolvers  # noqa: E402
 import translate_tags  # noqa: E402
 
 GENERATORS = [translate_resolvers, translate_tags]
-for name in ('translate_callsites', 'translate_json', 'translate_signatures'):
+for name in ('translate_callsites', 'translate_registry', 'translate_json', 'translate_signatures'):
     try:
         GENERATORS.append(__import__(name))
     except ImportError:
